@@ -1315,6 +1315,126 @@ fn main() {
             let _ = std::fs::remove_file(&path);
         });
     }
+    // I. several user threads on ONE shared ParallelArchive: a call's answer may depend neither on what other calls on the
+    // same object are doing at that moment (a failing call next to it, another valid call with a different request) nor
+    // on what they did before. The disturbing thread loops calls of the same interface with a missing name in the request.
+    let conc_base = gen_base + gen_specs.len() as u64;
+    let conc_specs: [(&str, usize, &str); 8] = [("extract_files_batched", 0, "failing"), ("extract_files_batched", 4, "failing"), ("extract_files_parallel", 0, "failing"),
+        ("process_files_parallel", 0, "failing"), ("extract_files_batched", 0, "valid"), ("extract_files_parallel", 4, "valid"), ("process_files_parallel", 4, "valid"), ("extract_matching_parallel", 0, "failing")];
+    for (ci, &(api, threads, other)) in conc_specs.iter().enumerate() {
+        let idx = conc_base + ci as u64;
+        if !run.want(idx) || (run.args.only.is_none() && mix(idx) % stride != 0) {
+            continue;
+        }
+        let rounds = if thorough { 300 } else { 40 };
+        let class = format!("{api}|shared-object-concurrent-calls|t{threads}|other={other}");
+        let desc = json!({"interface": api, "threads": threads, "other_thread": other, "rounds": rounds, "what": "main thread: valid calls compared slot by slot with the sequential baseline; a second user thread calls the same ParallelArchive concurrently"});
+        let fx = &mut fixes[0];
+        let names: Vec<String> = fx.names.iter().filter(|n| !fx.base.get(*n).map(|e| e.is_err()).unwrap_or(false)).cloned().collect();
+        let want: Vec<(String, Exp)> = names.iter().map(|n| (n.clone(), fx.expect(n))).collect();
+        let path = fx.path.clone();
+        run.case(idx, &class, desc, |c| {
+            if want.iter().any(|(_, e)| e.is_err()) {
+                c.inconclusive("fixture has names the sequential reader cannot read");
+                return;
+            }
+            let pa = match ParallelArchive::open(&path) {
+                Ok(p) => Arc::new(p),
+                Err(e) => {
+                    c.inconclusive(format!("ParallelArchive::open failed on a fixture: {e}"));
+                    return;
+                }
+            };
+            let pool = if threads > 0 { rayon::ThreadPoolBuilder::new().num_threads(threads).build().ok().map(Arc::new) } else { None };
+            let call = |pa: &ParallelArchive, pool: Option<&rayon::ThreadPool>, req: &[&str]| -> Result<Vec<(String, Vec<u8>)>, Error> {
+                in_pool(pool, || match api {
+                    "extract_files_parallel" => pa.extract_files_parallel(req),
+                    "extract_files_batched" => pa.extract_files_batched(req, 7),
+                    "extract_matching_parallel" => pa.extract_matching_parallel(|n| req.iter().any(|r| r.eq_ignore_ascii_case(n))),
+                    _ => pa.process_files_parallel(req, |name, data| Ok((name.to_string(), data))),
+                })
+            };
+            let stop2 = Arc::new(AtomicBool::new(false));
+            let other_calls = Arc::new(AtomicU64::new(0));
+            let disturber = {
+                let (pa, stop2, other_calls, pool) = (pa.clone(), stop2.clone(), other_calls.clone(), pool.clone());
+                let mut req: Vec<String> = names.iter().rev().cloned().collect();
+                if other == "failing" {
+                    let at = req.len() / 3;
+                    req.insert(at, missing_name(77));
+                }
+                let api = api.to_string();
+                std::thread::spawn(move || {
+                    let refs: Vec<&str> = req.iter().map(|s| s.as_str()).collect();
+                    while !stop2.load(Ordering::Relaxed) {
+                        let p = pool.as_deref();
+                        let _ = in_pool(p, || match api.as_str() {
+                            "extract_files_parallel" => pa.extract_files_parallel(&refs).map(|_| ()),
+                            "extract_files_batched" => pa.extract_files_batched(&refs, 5).map(|_| ()),
+                            "extract_matching_parallel" => pa.extract_files_batched(&refs, 5).map(|_| ()),
+                            _ => pa.process_files_parallel(&refs, |name, data| Ok((name.to_string(), data))).map(|_| ()),
+                        });
+                        other_calls.fetch_add(1, Ordering::Relaxed);
+                    }
+                })
+            };
+            let refs: Vec<&str> = names.iter().map(|s| s.as_str()).collect();
+            let mut listing_order: Option<Vec<String>> = None;
+            for round in 0..rounds {
+                let got = trap(|| call(&pa, pool.as_deref(), &refs));
+                c.count("shared_object_calls", 1);
+                let v = match got {
+                    Err(p) => {
+                        c.violate(format!("panic|{api}|shared-object|{}", p.sig()), format!("{api} panicked while another thread used the same ParallelArchive: {}", p.msg), json!({"round": round}));
+                        break;
+                    }
+                    Ok(Err(e)) => {
+                        c.violate(format!("shared-object-call-fails|{api}|other={other}|{}", variant(&e)), format!("a valid {api} call failed ({e}) while another user thread was calling the same ParallelArchive ({other} requests)"), json!({"round": round, "threads": threads}));
+                        break;
+                    }
+                    Ok(Ok(v)) => v,
+                };
+                // extract_matching_parallel answers in listing order: compare as a map + fixed order across rounds
+                if api == "extract_matching_parallel" {
+                    let order: Vec<String> = v.iter().map(|x| x.0.clone()).collect();
+                    if let Some(o) = &listing_order {
+                        if *o != order {
+                            c.violate(format!("shared-object-order-changes|{api}"), "the order of results differs between two identical calls".to_string(), json!({"round": round}));
+                            break;
+                        }
+                    } else {
+                        listing_order = Some(order);
+                    }
+                }
+                let bad = if v.len() != want.len() {
+                    Some(format!("{} results for {} requested names", v.len(), want.len()))
+                } else if api == "extract_matching_parallel" {
+                    let m: HashMap<&str, &Vec<u8>> = v.iter().map(|(n, d)| (n.as_str(), d)).collect();
+                    want.iter().find_map(|(n, e)| match (m.get(n.as_str()), e) {
+                        (Some(d), Exp::Ok(w)) if ***d == **w => None,
+                        _ => Some(format!("{n} missing or different")),
+                    })
+                } else {
+                    v.iter().zip(&want).enumerate().find_map(|(k, ((gn, gd), (wn, we)))| match we {
+                        Exp::Ok(w) if gn == wn && *gd == **w => None,
+                        _ => Some(format!("slot {k} ({wn}) is not what a sequential read returns")),
+                    })
+                };
+                c.count("shared_object_slots_compared", want.len() as u64);
+                if let Some(why) = bad {
+                    let kind = if v.len() != want.len() { "slot-count" } else { "slot-content" };
+                    c.violate(format!("shared-object-mismatch|{api}|other={other}|{kind}"), format!("{api}: {why} while another user thread was calling the same ParallelArchive ({other} requests)"), json!({"round": round, "threads": threads, "other_calls_so_far": other_calls.load(Ordering::Relaxed)}));
+                    break;
+                }
+            }
+            stop2.store(true, Ordering::Relaxed);
+            let _ = disturber.join();
+            c.count("shared_object_other_thread_calls", other_calls.load(Ordering::Relaxed));
+            if other_calls.load(Ordering::Relaxed) == 0 {
+                c.inconclusive("the second thread never completed a call: no concurrency observed");
+            }
+        });
+    }
     stop.store(true, Ordering::Relaxed);
     for h in stress {
         let _ = h.join();
